@@ -120,7 +120,7 @@ def main():
         }],
         "checks": checks,
         "not_applicable": na,
-        "notes": "All checks import haiway from /repo/src at run time (HAIWAY_SRC overrides for mutant testing), so nothing is built. Exit 0 held / 1 VIOLATION / 2 harness failure. See DESIGN.md.",
+        "notes": "All checks import haiway from /repo/src at run time (HAIWAY_SRC overrides for mutant testing), so nothing is built. Exit 0 held / 1 VIOLATION / 2 harness failure. Every check also runs `<profile>-eager` profiles (SimLoop with an eager task factory) and ends with a `python -O` slice of itself (a tenth of the counts, child interpreter, VERIF_PYTHON_O=0 switches it off). See DESIGN.md.",
     }
     with open(os.path.join(VERIF, "MANIFEST.json"), "w") as f:
         json.dump(doc, f, indent=1)
